@@ -225,10 +225,12 @@ func (p *BlockPipeline) Submit(ctx context.Context, blockType uint, rawCbor []by
 		return ErrPipelineStopped
 	}
 
+	verifPoint("sub.begin", "", 0, rawCbor, 0)
 	// Allocate sequence number only once, then send.
 	// We use a single blocking select to avoid sequence gaps that would occur
 	// if we allocated in a non-blocking attempt that failed.
 	item := NewBlockItem(blockType, rawCbor, tip, p.sequenceCounter.Add(1)-1)
+	verifPoint("sub.send", "", item.SequenceNumber(), rawCbor, 0)
 
 	select {
 	case p.submitChan <- item:
@@ -276,6 +278,7 @@ func (p *BlockPipeline) Stop() error {
 	// Submit() holds RLock while blocking on channel, and we need it to unblock
 	// via ctx.Done() before we can acquire the write lock.
 	p.cancel()
+	verifPoint("stop.lock", "", 0, nil, 0)
 
 	// Now acquire write lock to ensure no Submit() calls are in progress.
 	// Any Submit() blocked on channel send will now return via ctx.Done().
@@ -286,16 +289,19 @@ func (p *BlockPipeline) Stop() error {
 	p.submitMu.Unlock()
 
 	// Wait for decode workers to finish
+	verifPoint("stop.wait1", "", 0, nil, 0)
 	p.decodePool.Stop()
 	close(p.decodedChan)
 
 	// Wait for validate workers to finish (if validation is enabled)
 	if p.validatePool != nil {
+		verifPoint("stop.wait2", "", 0, nil, 0)
 		p.validatePool.Stop()
 		close(p.validatedChan)
 	}
 
 	// Wait for apply runner to finish
+	verifPoint("stop.waitA", "", 0, nil, 0)
 	p.applyRunner.Stop()
 
 	// Close output channels
@@ -321,6 +327,7 @@ func (p *BlockPipeline) PendingCount() int {
 		return 0
 	}
 	channelDepth := len(p.submitChan) + len(p.decodedChan) + len(p.validatedChan)
+	verifPoint("pc.mid", "", 0, nil, int64(channelDepth))
 	applyPending := 0
 	if p.applyStage != nil {
 		applyPending = p.applyStage.PendingCount()
@@ -344,6 +351,7 @@ func (p *BlockPipeline) WaitForDrain(ctx context.Context) error {
 		case <-ctx.Done():
 			return ctx.Err()
 		case <-ticker.C:
+			verifPoint("wfd.poll", "", 0, nil, 0)
 			if p.PendingCount() == 0 {
 				return nil
 			}
